@@ -97,6 +97,7 @@ type Sys struct {
 	mappers   [nStaticRes]interface{} // persistent generic.Resource mappers
 
 	listenerRes bool
+	applySeq    int
 }
 
 var allSubs = event.Subscription(63)
@@ -665,7 +666,7 @@ func (s *Sys) builder(op *COp) *ecs.Builder {
 	if op.With {
 		b = ecs.NewBuilderWith(s.W, s.comps(op.Add, op.Vals)...)
 	} else {
-		b = ecs.NewBuilder(s.W, toIDs(s.IDs, op.Add)...)
+		b = ecs.NewBuilder(s.W, s.tIDs(op.Add)...)
 	}
 	if op.Rel >= 0 {
 		b = b.WithRelation(s.IDs[op.Rel])
@@ -674,6 +675,14 @@ func (s *Sys) builder(op *COp) *ecs.Builder {
 }
 
 // Apply executes a concrete op on the real world, recovering panics.
+// tIDs converts type indices to IDs; an empty list is nil in every second call and empty-but-not-nil in the others.
+func (s *Sys) tIDs(ts []int) []ecs.ID {
+	if len(ts) == 0 && s.applySeq%2 == 0 {
+		return nil
+	}
+	return toIDs(s.IDs, ts)
+}
+
 func (s *Sys) Apply(op *COp) (res Result) {
 	defer func() {
 		if r := recover(); r != nil {
@@ -685,11 +694,12 @@ func (s *Sys) Apply(op *COp) (res Result) {
 		}
 	}()
 	w := s.W
+	s.applySeq++
 	switch op.Kind {
 	case "new":
 		switch op.Variant {
 		case "NewEntity":
-			res.Ent = w.NewEntity(toIDs(s.IDs, op.Add)...)
+			res.Ent = w.NewEntity(s.tIDs(op.Add)...)
 		case "NewEntityWith":
 			res.Ent = w.NewEntityWith(s.comps(op.Add, op.Vals)...)
 		case "Builder.New":
@@ -722,13 +732,13 @@ func (s *Sys) Apply(op *COp) (res Result) {
 	case "xchg":
 		switch op.Variant {
 		case "Add":
-			w.Add(op.Ent, toIDs(s.IDs, op.Add)...)
+			w.Add(op.Ent, s.tIDs(op.Add)...)
 		case "Remove":
-			w.Remove(op.Ent, toIDs(s.IDs, op.Rem)...)
+			w.Remove(op.Ent, s.tIDs(op.Rem)...)
 		case "Exchange":
-			w.Exchange(op.Ent, toIDs(s.IDs, op.Add), toIDs(s.IDs, op.Rem))
+			w.Exchange(op.Ent, s.tIDs(op.Add), s.tIDs(op.Rem))
 		case "Relations.Exchange":
-			w.Relations().Exchange(op.Ent, toIDs(s.IDs, op.Add), toIDs(s.IDs, op.Rem), s.relID(op), op.Target)
+			w.Relations().Exchange(op.Ent, s.tIDs(op.Add), s.tIDs(op.Rem), s.relID(op), op.Target)
 		case "Assign":
 			w.Assign(op.Ent, s.comps(op.Add, op.Vals)...)
 		case "Builder.Add":
@@ -784,7 +794,7 @@ func (s *Sys) Apply(op *COp) (res Result) {
 		}
 	case "batch":
 		f := s.filterFor(op)
-		add, rem := toIDs(s.IDs, op.Add), toIDs(s.IDs, op.Rem)
+		add, rem := s.tIDs(op.Add), s.tIDs(op.Rem)
 		var q ecs.Query
 		switch op.Variant {
 		case "Batch.Add":
